@@ -30,7 +30,10 @@ impl InnerFunctionManager {
                         min = Some(num);
                     }
                 }
-                Ok(Value::Number(min.unwrap()))
+                match min {
+                    Some(v) => Ok(Value::Number(v)),
+                    None => Err(Error::ParamInvalid()),
+                }
             }),
         );
 
@@ -44,7 +47,10 @@ impl InnerFunctionManager {
                         max = Some(num);
                     }
                 }
-                Ok(Value::Number(max.unwrap()))
+                match max {
+                    Some(v) => Ok(Value::Number(v)),
+                    None => Err(Error::ParamInvalid()),
+                }
             }),
         );
 
@@ -53,7 +59,10 @@ impl InnerFunctionManager {
             Arc::new(|params| {
                 let mut ans = Decimal::ZERO;
                 for param in params.into_iter() {
-                    ans += param.decimal()?;
+                    ans = match ans.checked_add(param.decimal()?) {
+                        Some(v) => v,
+                        None => return Err(Error::ParamInvalid()),
+                    };
                 }
                 Ok(Value::Number(ans))
             }),
@@ -64,7 +73,10 @@ impl InnerFunctionManager {
             Arc::new(|params| {
                 let mut ans = Decimal::ONE;
                 for param in params.into_iter() {
-                    ans *= param.decimal()?;
+                    ans = match ans.checked_mul(param.decimal()?) {
+                        Some(v) => v,
+                        None => return Err(Error::ParamInvalid()),
+                    };
                 }
                 Ok(Value::Number(ans))
             }),
